@@ -73,6 +73,7 @@ BOUNDS = {
         "control_names": CONTROLS,
         "sample_plate_names": NAMES4,
         "memory": "every no-mapping screen also column-major (arity >= 2); read-only and big-endian arrays on the deterministic third of the cases whose digest is divisible by 3",
+        "many_ids": "sparse probes with exactly n distinct samples / plates / conditions, n in {127..129, 200, 255..257, 32767..32769, 65535..65537}",
         "merge_histories": "3 plate layouts (3-4 plates, interleaved rows): every sequence of <= 2 merges (<= 3 for 3 plates) of ordered plate pairs, with fresh and with stale plate handles",
     },
     "thorough": {
@@ -174,6 +175,9 @@ def plan(tier, seed):
     items.append({"k": "enc1d"})
     for li in range(len(MERGE_LAYOUTS)):
         items.append({"k": "merge", "layout": li})
+    items.append({"k": "manyids", "ns": [127, 128, 129, 200, 255, 256, 257]})
+    items.append({"k": "manyids", "ns": [32767, 32768, 32769]})
+    items.append({"k": "manyids", "ns": [65535, 65536, 65537]})
     for n in (1, 2, 3):
         screens("A9", 1, n)
     for n in (1, 2):
@@ -516,6 +520,50 @@ def run_merge_case(case, col, verbose=False):
     col.nontriv("merge", case["layout"], tuple(map(tuple, case["merges"])), case["stale_handles"])
 
 
+def run_manyids_case(case, col, verbose=False):
+    """Sparse probe: exactly n distinct samples, plates and (treatment, dose) conditions (n around 128 / 256 / 32768 / 65536,
+    where an id array in a compact integer type would wrap).  Light vectorised judgement: dense, id <-> name one to one,
+    every treatment id decodes through the mapping, the experiment-space sizes bound the ids."""
+    n = case["n"]
+    # (bijections of 0..n-1: reversed, rotated by n/3, rotated by 2n/3 - the names do not arrive in sorted order)
+    sn = np.array([f"s{n - 1 - i:06d}" for i in range(n)], dtype=str)
+    pn = np.array([f"p{(i + n // 3) % n:06d}" for i in range(n)], dtype=str)
+    tn = np.array([[f"t{(i + 2 * n // 3) % n:06d}", "" if i % 5 == 0 else f"t{i:06d}"] for i in range(n)], dtype=str)
+    td = np.array([[1.0, 0.0 if i % 5 == 0 else 2.0] for i in range(n)], dtype=float)
+    col.evaluations += 1
+    col.states += 1
+    col.transitions += 1
+    s = Screen(treatment_names=tn, treatment_doses=td, sample_names=sn, plate_names=pn, control_treatment_name="")
+    for what, names, ids in (("sample", sn, np.asarray(s.sample_ids)), ("plate", pn, np.asarray(s.plate_ids))):
+        ids = ids.astype(np.int64)
+        if sorted(set(ids.tolist())) != list(range(n)):
+            col.violation(f"C01|manyids|{what}-not-dense", f"{n} distinct {what} names: ids range from {ids.min()} to {ids.max()} ({len(set(ids.tolist()))} distinct), expected 0..{n - 1}", case)
+            return
+        order = np.argsort(names, kind="stable")
+        if len(set(zip(names.tolist(), ids.tolist()))) != n:
+            col.violation(f"C01|manyids|{what}-id-vs-name", f"{n} distinct {what} names: the relation name <-> id is not one to one", case)
+            return
+    tid = np.asarray(s.treatment_ids).astype(np.int64)
+    mn, md, mi = (np.asarray(a) for a in s.treatment_mapping)
+    look = {int(i): (str(a), float(b)) for a, b, i in zip(mn, md, mi) if int(i) >= 0}
+    nonctl = tid[tid != -1]
+    if sorted(set(nonctl.tolist())) != list(range(len(set(nonctl.tolist())))):
+        col.violation("C01|manyids|treatment-not-dense", f"{n} rows: non-control treatment ids range from {nonctl.min()} to {nonctl.max()} ({len(set(nonctl.tolist()))} distinct)", case)
+        return
+    for i in range(n):
+        for j in range(2):
+            is_ctl = tn[i, j] == "" or td[i, j] <= 0
+            if is_ctl != (tid[i, j] == -1) or (not is_ctl and look.get(int(tid[i, j])) != (str(tn[i, j]), float(td[i, j]))):
+                col.violation("C01|manyids|treatment-decode", f"{n} rows: row {i} slot {j} ({tn[i, j]!r}, {td[i, j]}) carries id {int(tid[i, j])}, which decodes to {look.get(int(tid[i, j]))}", case)
+                return
+    es = ExperimentSpace.from_screen(s)
+    if not (int(es.n_unique_samples) > int(np.asarray(s.sample_ids).astype(np.int64).max()) and int(es.n_unique_treatments) > int(tid.max())):
+        col.violation("C01|manyids|space-bound", f"{n} rows: experiment-space sizes ({es.n_unique_samples}, {es.n_unique_treatments}) do not bound the ids", case)
+        return
+    col.outcome("manyids", n)
+    col.nontriv("manyids", n)
+
+
 def run_merge_item(item, col):
     names = sorted(set(MERGE_LAYOUTS[item["layout"]]))
     pairs = [(a, b) for a in names for b in names if a != b]
@@ -532,6 +580,8 @@ def run_case(case, col, verbose=False):
     kind = case["kind"]
     if kind == "merge":
         return run_merge_case(case, col, verbose)
+    if kind == "manyids":
+        return run_manyids_case(case, col, verbose)
     control = case.get("control", "")
     if kind == "enc1d":
         names = case["names"]
@@ -719,6 +769,10 @@ def run_item(item, col, tier):
     k = item["k"]
     if k == "merge":
         return run_merge_item(item, col)
+    if k == "manyids":
+        for n in item["ns"]:
+            run_manyids_case({"kind": "manyids", "n": n}, col)
+        return
     if k == "enc1d":
         first = True
         for n in (1, 2, 3, 4):
